@@ -233,6 +233,10 @@ def main_check(spec: PropSpec, explore: Callable[[Ctx], Exploration],
 
 def _run(spec: PropSpec, ctx: Ctx, explore, failing_input_search) -> int:
     broken: List[Finding] = []
+    d = OUT / spec.pid
+    if d.exists():
+        for f in d.glob(f"{ctx.seed}-*.json"):
+            f.unlink()
     # 1. build the property's theorems and drivers from the current tree
     err = lean_build(list(spec.lean_modules) + list(spec.drivers))
     audit: Dict[str, Any] = {"theorems": [], "axioms": {}, "problems": []}
